@@ -41,7 +41,7 @@ func c28Relative(r *core.Run, p *core.Prog) {
 		}
 		nRet++
 		b, ok := core.BinOp(rs.Results[0], token.SUB)
-		if !ok || core.Str(ast.Unparen(b.X)) != "time.Now().Unix()" || core.ObjOf(info, b.Y) == nil {
+		if !ok || core.Str(ast.Unparen(resolveLocal(info, f.Decl.Body, b.X))) != "time.Now().Unix()" || core.ObjOf(info, b.Y) == nil {
 			badRet = append(badRet, fmt.Sprintf("%s: returns %s", p.Rel(rs.Pos()), core.Str(rs.Results[0])))
 			return true
 		}
@@ -61,22 +61,17 @@ func c28Relative(r *core.Run, p *core.Prog) {
 	var badAcc []string
 	other := 0
 	core.Walk(f.Decl.Body, false, func(x ast.Node) bool {
-		cc, isCase := x.(*ast.CaseClause)
-		if isCase && len(cc.List) == 1 {
-			if tv, ok := info.Types[cc.List[0]]; ok && tv.Value != nil {
-				unit := tv.Value.String()
-				for _, st := range cc.Body {
-					if a, ok := st.(*ast.AssignStmt); ok && len(a.Lhs) == 1 && core.ObjOf(info, a.Lhs[0]) == acc && a.Tok == token.ADD_ASSIGN {
-						if b, ok := core.BinOp(a.Rhs[0], token.MUL); ok {
-							if k, okc := core.ConstInt(info, b.X); okc {
-								units[unit] = k
-							} else if k, okc := core.ConstInt(info, b.Y); okc {
-								units[unit] = k
-							}
-						} else if core.ObjOf(info, a.Rhs[0]) != nil {
-							units[unit] = 1
-						}
+		if a, ok := x.(*ast.AssignStmt); ok && len(a.Lhs) == 1 && core.ObjOf(info, a.Lhs[0]) == acc && a.Tok == token.ADD_ASSIGN {
+			// the unit this update belongs to: `case 'd':` or `if unit == 'd'`
+			for _, unit := range governingConsts(info, f.Decl.Body, a) {
+				if b, ok := core.BinOp(a.Rhs[0], token.MUL); ok {
+					if k, okc := core.ConstInt(info, b.X); okc {
+						units[unit] = k
+					} else if k, okc := core.ConstInt(info, b.Y); okc {
+						units[unit] = k
 					}
+				} else if core.ObjOf(info, a.Rhs[0]) != nil {
+					units[unit] = 1
 				}
 			}
 		}
@@ -107,13 +102,8 @@ func c28Relative(r *core.Run, p *core.Prog) {
 			if b, ok := core.BinOp(a.Rhs[0], token.MUL); ok {
 				k1, ok1 := core.ConstInt(info, b.X)
 				k2, ok2 := core.ConstInt(info, b.Y)
-				// outside any case clause
-				inCase := false
-				for _, pn := range core.PathTo(f.Decl.Body, a) {
-					if _, ok := pn.(*ast.CaseClause); ok {
-						inCase = true
-					}
-				}
+				// not inside the per-unit table
+				inCase := len(governingConsts(info, f.Decl.Body, a)) > 0
 				if !inCase && ((ok1 && k1 == 86400) || (ok2 && k2 == 86400)) {
 					dOK = true
 				}
